@@ -116,20 +116,48 @@ Seps == <<
   <<"\t">>,
   <<" ", "\n", " ", " ">>,
   <<"\r", "\n">> >>
-\* what a text may START with (positions of every token then shift; a form feed is not white space)
-Lead == { <<" ">>, <<"\n">>, <<"\t">>, <<"\r">>, <<"\n", "\n", " ", " ">>, <<"\f">> }
 
 Rg(s) == { s[i] : i \in 1..Len(s) }
-Els == Rg(ValidEl) \cup Rg(NearEl)
-Sp == Rg(Seps)
-OneS(E, S) == { e \o s : e \in E, s \in S }
-One(E) == OneS(E, Sp)
-RECURSIVE UpToS(_, _, _)
-UpToS(E, n, S) == IF n = 0 THEN {<<>>} ELSE LET r == UpToS(E, n - 1, S) IN r \cup { a \o b : a \in OneS(E, S), b \in r }
-UpTo(E, n) == UpToS(E, n, Sp)
-Texts == UpTo(Els, 1) \cup UpToS(Els, 2, { Seps[i] : i \in 1..PairSeps }) \cup UpTo(Rg(CoreEl), MaxCore)
-         \cup { l \o t : l \in Lead, t \in UpTo(Els, 1) \cup UpToS(Rg(CoreEl), 2, {<<>>, <<" ">>}) }
+El == ValidEl \o NearEl            \* the full pool, as a sequence
+NEl == Len(El)
+NCore == Len(CoreEl)
+NSep == Len(Seps)
 
-ASSUME /\ ndJsonSerialize("gen_texts.ndjson", SetToSeq({ [text |-> t] : t \in Texts }))
-       /\ PrintT(<<"GENERATED", Cardinality(Texts)>>)
+\* A text is described by a tuple of indices (so that TLC enumerates small integer states on all workers instead of
+\* building one huge set of sequences); Text(c) spells it out.
+\*   <<"one",  i, s>>                   El[i] Seps[s]
+\*   <<"pair", i, s, j, t>>             El[i] Seps[s] El[j] Seps[t]           s, t among the first PairSeps separators
+\*   <<"core", n, i1, s1, i2, s2, i3, s3>>   n <= MaxCore elements of CoreEl; all separators for n <= 2, the first two for n = 3
+\*   <<"lead", l, c>>                   LeadSeq[l] followed by a "one" text or a "core" text of 2 elements over the first two separators
+LeadSeq == << <<" ">>, <<"\n">>, <<"\t">>, <<"\r">>, <<"\n", "\n", " ", " ">>, <<"\f">> >>
+RECURSIVE CoreText(_, _)
+CoreText(c, k) == IF k > c[2] THEN <<>> ELSE CoreEl[c[2 * k + 1]] \o Seps[c[2 * k + 2]] \o CoreText(c, k + 1)
+RECURSIVE Text(_)
+Text(c) == CASE c[1] = "one"  -> El[c[2]] \o Seps[c[3]]
+             [] c[1] = "pair" -> El[c[2]] \o Seps[c[3]] \o El[c[4]] \o Seps[c[5]]
+             [] c[1] = "core" -> CoreText(c, 1)
+             [] c[1] = "lead" -> LeadSeq[c[2]] \o Text(c[3])
+
+VARIABLES lvl, c
+vars == <<lvl, c>>
+Init == lvl = 0 /\ c = <<>>
+SepsFor(n) == IF n = 3 THEN 1..2 ELSE 1..NSep
+\* level 1 fixes the family and the first element, level 2 the rest
+First == { <<"one", i>> : i \in 1..NEl } \cup { <<"pair", i>> : i \in 1..NEl }
+         \cup { <<"core", n, i>> : n \in 1..MaxCore, i \in 1..NCore } \cup { <<"core", 0, 0>> }
+         \cup { <<"lead", l>> : l \in 1..Len(LeadSeq) }
+Rest(f) ==
+  CASE f[1] = "one"  -> { <<"one", f[2], s>> : s \in 1..NSep }
+    [] f[1] = "pair" -> { <<"pair", f[2], s, j, t>> : s \in 1..PairSeps, j \in 1..NEl, t \in 1..PairSeps }
+    [] f[1] = "core" ->
+         (CASE f[2] = 0 -> { <<"core", 0>> }
+            [] f[2] = 1 -> { <<"core", 1, f[3], s>> : s \in 1..NSep }
+            [] f[2] = 2 -> { <<"core", 2, f[3], s, j, t>> : s \in 1..NSep, j \in 1..NCore, t \in 1..NSep }
+            [] f[2] = 3 -> { <<"core", 3, f[3], s, j, t, k, u>> : s \in 1..2, j \in 1..NCore, t \in 1..2, k \in 1..NCore, u \in 1..2 })
+    [] f[1] = "lead" -> { <<"lead", f[2], <<"one", i, s>> >> : i \in 1..NEl, s \in 1..NSep }
+                        \cup { <<"lead", f[2], <<"core", 2, i, s, j, t>> >> : i \in 1..NCore, s \in 1..2, j \in 1..NCore, t \in 1..2 }
+Next == \/ lvl = 0 /\ lvl' = 1 /\ c' \in First
+        \/ lvl = 1 /\ lvl' = 2 /\ c' \in Rest(c)
+Spec == Init /\ [][Next]_vars
+Emit == lvl = 2 => PrintT("TEXT " \o ToJson([text |-> Text(c)]))
 =============================================================================
